@@ -32,8 +32,8 @@ BUDGET = {
 @st.composite
 def cases(draw):
     spec = draw(models.model_specs(names=draw(st.sampled_from(["ident", "free"])), n_state=(1, 4), n_control=(0, 3),
-                                   n_calib=(0, 2), n_sensors=(1, 3), n_readings=(1, 4), depth=2, sensor_depth=draw(st.sampled_from([2, 2, 3]))))
-    pts = [draw(models.points(spec, dt=("pos", "neg"))) for _ in range(5)]
+                                   n_calib=(0, 2), n_sensors=(1, 3), n_readings=(1, 4), depth=2, sensor_depth=draw(st.sampled_from([2, 2, 3])), template="mixed"))
+    pts = draw(models.point_sequences(spec, 5, dt=("pos", "neg")))
     return {"model": spec, "points": pts}
 
 
